@@ -63,6 +63,34 @@ def run_post(spec):
     mvn = rec.calls("mvn")
     out["mvn"] = mvn
     out["table"] = res
+    # the same accepted sample through the cache-file path: a serial pool that hands each posterior task a recording generator,
+    # so that the (mean, cov) the file-backed worker passes to multivariate_normal are observed too
+    import schwimmbad
+
+    class RecPool(schwimmbad.SerialPool):
+        def __init__(self):
+            super().__init__()
+            self.gens = []
+
+        def map(self, func, tasks, callback=None):
+            out_ = []
+            for t in tasks:
+                if getattr(func, "__name__", "") == "make_full_samples_worker":
+                    g = RecGen(13)
+                    self.gens.append(g)
+                    t = tuple(t[:-1]) + (g,)
+                r = func(t)
+                if callback is not None:
+                    callback(r)
+                out_.append(r)
+            return out_
+
+    pool = RecPool()
+    with warnings.catch_warnings():
+        warnings.simplefilter("ignore")
+        res_f = TheJoker(prior, rng=RecGen(11), pool=pool).rejection_sample(data, smp, n_linear_samples=spec["nls"])
+    out["mvn_file"] = [c for g in pool.gens for c in g.calls("mvn")]
+    out["table_file"] = res_f
     # several samples at once through the helper (layout)
     helper = out["helper"]
     thetas = [spec["theta"]] + spec["extra_theta"]
@@ -98,6 +126,24 @@ def predicate(spec, out):
     elif np.asarray(meta["cov"]).shape != (nl, nl) or not np.all(np.abs(np.asarray(meta["cov"]) - A_cf) <= 1e-4 * np.outer(sd, sd)):
         errs.append(f"covariance handed to the generator is not A = (Lambda^-1 + M^T C_s^-1 M)^-1 (diag {np.diag(meta['cov'])} vs {np.diag(A_cf)}) "
                     f"[K prior {spec['kprior']}, P={spec['theta']['P']}, s={spec['theta']['s']}]")
+    # the cache-file path hands the generator the same conditional posterior (and returns the sample's own nonlinear parameters)
+    mf = out.get("mvn_file")
+    if mf is not None:
+        if len(mf) != 1:
+            errs.append(f"cache-file path: expected one multivariate_normal call for one accepted sample, saw {len(mf)}")
+        else:
+            m_f = mf[0][0]
+            if (np.asarray(m_f["mean"]).shape != (nl,) or not np.all(np.abs(np.asarray(m_f["mean"]) - a_cf) <= 1e-4 * sd + 1e-9 * np.abs(a_cf))
+                    or np.asarray(m_f["cov"]).shape != (nl, nl) or not np.all(np.abs(np.asarray(m_f["cov"]) - A_cf) <= 1e-4 * np.outer(sd, sd))):
+                errs.append(f"cache-file path: (mean, cov) handed to the generator {np.asarray(m_f['mean'])} / diag {np.diag(np.asarray(m_f['cov']))} "
+                            f"are not the conditional posterior a = {a_cf}, diag A = {np.diag(A_cf)} [s={spec['theta']['s']} {spec['data_unit']}, "
+                            f"sample columns in {spec.get('smp_units', {})}]")
+            tf = out["table_file"]
+            import astropy.units as u_
+
+            s_f = np.asarray(tf["s"].to_value(u_.Unit(spec["data_unit"])), float)
+            if len(tf) != spec["nls"] or not np.allclose(s_f, spec["theta"]["s"], rtol=1e-12, atol=0):
+                errs.append(f"cache-file path: returned rows carry s = {s_f} {spec['data_unit']}, the accepted sample has {spec['theta']['s']}")
     # the returned table: nls rows, nonlinear parameters unchanged, linear columns = the draws in design-matrix order and data units
     import astropy.units as u
 
